@@ -305,13 +305,83 @@ func ruleCmd(c *Ctx) {
 			add("(v) exit calls only on error edges; std logger not redirected", b.rel(mainFn.Pos()), bad == "", "every log.Fatal*/os.Exit is dominated by the non-nil edge of an error test; no log.SetOutput", bad)
 		}
 
-		// (iii) order and chaining. The fold may live in main or in one helper of
-		// the command package; what is checked is the value flow
-		// stdin -> (helper parameter ->) phi(·, previous Apply result) -> (helper result ->) printed operand.
+		// (iii) order and chaining, (vii) one file per -p value. Both are statements about
+		// where values come from; the command's functions may be cut into helpers in any way, so
+		// values are followed through the command package: the result of a helper stands for
+		// what the helper returns, a helper's parameter for what its callers hand in.
+		inCmd := map[*ssa.Function]bool{}
+		for _, fn := range fns {
+			inCmd[fn] = true
+		}
+		var roots func(v ssa.Value, depth int) []ssa.Value
+		roots = func(v ssa.Value, depth int) []ssa.Value {
+			if depth > 8 || v == nil {
+				return []ssa.Value{v}
+			}
+			switch x := v.(type) {
+			case *ssa.MakeInterface:
+				return roots(x.X, depth+1)
+			case *ssa.ChangeInterface:
+				return roots(x.X, depth+1)
+			case *ssa.ChangeType:
+				return roots(x.X, depth+1)
+			case *ssa.Convert:
+				return roots(x.X, depth+1)
+			case *ssa.Extract:
+				if call, ok := x.Tuple.(*ssa.Call); ok {
+					if f := call.Call.StaticCallee(); f != nil && inCmd[f] && len(f.Blocks) > 0 {
+						var out []ssa.Value
+						for _, r := range returnsOf(f) {
+							if x.Index < len(r.Results) && !isNilConst(r.Results[x.Index]) {
+								out = append(out, roots(r.Results[x.Index], depth+1)...)
+							}
+						}
+						return out
+					}
+				}
+			case *ssa.Call:
+				if f := x.Call.StaticCallee(); f != nil && inCmd[f] && len(f.Blocks) > 0 && f.Signature.Results().Len() == 1 {
+					var out []ssa.Value
+					for _, r := range returnsOf(f) {
+						if !isNilConst(r.Results[0]) {
+							out = append(out, roots(r.Results[0], depth+1)...)
+						}
+					}
+					return out
+				}
+			case *ssa.Parameter:
+				f := x.Parent()
+				if f != mainFn && inCmd[f] {
+					var out []ssa.Value
+					n := 0
+					for _, g := range fns {
+						for _, cs := range callsTo(g, func(cc *ssa.CallCommon) bool { return cc.StaticCallee() == f }) {
+							n++
+							out = append(out, roots(cs.Common().Args[paramIdx(x)], depth+1)...)
+						}
+					}
+					if n > 0 {
+						return out
+					}
+				}
+			}
+			return []ssa.Value{v}
+		}
+		uniq := func(vs []ssa.Value) []ssa.Value {
+			seen := map[ssa.Value]bool{}
+			var out []ssa.Value
+			for _, v := range vs {
+				if !seen[v] {
+					seen[v] = true
+					out = append(out, v)
+				}
+			}
+			return out
+		}
 		{
 			key := "(iii) chaining: Apply's document is phi(stdin bytes, previous result); the printed value is that fold"
 			var applyCall, readAll, decode *ssa.Call
-			var applyFn, decodeFn *ssa.Function
+			var applyFn *ssa.Function
 			for _, fn := range fns {
 				allInstrs(fn, func(i ssa.Instruction) {
 					ci, ok := i.(*ssa.Call)
@@ -326,94 +396,53 @@ func ruleCmd(c *Ctx) {
 					case f.Pkg != nil && f.Pkg == b.Lib && strings.HasPrefix(f.Name(), "Apply") && recvTypeName(f) == "Patch":
 						applyCall, applyFn = ci, fn
 					case f.Pkg != nil && f.Pkg == b.Lib && f.Name() == "DecodePatch":
-						decode, decodeFn = ci, fn
+						decode = ci
 					case stdName(f) == "io/ioutil.ReadAll" || stdName(f) == "io.ReadAll":
-						if fn == mainFn {
-							readAll = ci
-						}
+						readAll = ci
 					}
 				})
 			}
-			_ = decodeFn
 			if applyCall == nil || readAll == nil || decode == nil {
-				add(key, b.rel(mainFn.Pos()), false, "", "the command does not call ReadAll (in main), DecodePatch and Patch.Apply")
+				add(key, b.rel(mainFn.Pos()), false, "", "the command does not call ReadAll, DecodePatch and Patch.Apply")
 			} else {
 				bad := ""
 				if g := loadedGlobal(unwrapConv(readAll.Call.Args[0])); g == nil || g.Name() != "Stdin" {
 					bad = "the document is not read from os.Stdin"
 				}
-				var stdinVals []ssa.Value
-				for _, ex := range extractOf(readAll, 0) {
-					stdinVals = append(stdinVals, ex)
+				isStdin := func(v ssa.Value) bool {
+					ex, ok := v.(*ssa.Extract)
+					return ok && ex.Tuple == ssa.Value(readAll) && ex.Index == 0
 				}
-				// source of the fold inside applyFn, and the value main prints
-				var source []ssa.Value // values that stand for "the stdin document" inside applyFn
-				var foldResultInMain func(v ssa.Value) bool
-				res0 := extractOf(applyCall, 0)
-				docArg := applyCall.Call.Args[1]
-				phi, isPhi := docArg.(*ssa.Phi)
-				if applyFn == mainFn {
-					source = stdinVals
-					foldResultInMain = func(v ssa.Value) bool { return isPhi && v == ssa.Value(phi) }
-				} else {
-					// helper: which parameter carries the document, and which result returns the fold
-					var helperCalls []ssa.CallInstruction
-					helperCalls = callsTo(mainFn, func(cc *ssa.CallCommon) bool { return cc.StaticCallee() == applyFn })
-					if len(helperCalls) != 1 {
-						bad = fmt.Sprintf("the fold lives in %s, which main calls %d times", fname(applyFn), len(helperCalls))
-					} else {
-						hc := helperCalls[0]
-						for pi, arg := range hc.Common().Args {
-							for _, sv := range stdinVals {
-								if arg == sv {
-									source = append(source, applyFn.Params[pi])
-								}
-							}
-						}
-						if len(source) == 0 {
-							bad = "main does not hand the stdin document to " + fname(applyFn)
-						}
-						// the helper returns the fold's final value as result 0 on success
-						for _, r := range liveReturns(applyFn) {
-							ei := errResultIndex(applyFn)
-							if ei >= 0 && isNilConst(retVal(r, ei)) {
-								if !(isPhi && retVal(r, 0) == ssa.Value(phi)) {
-									bad = fname(applyFn) + " does not return the fold's final value on success"
-								}
-							}
-						}
-						foldResultInMain = func(v ssa.Value) bool {
-							ex, ok := v.(*ssa.Extract)
-							return ok && ex.Tuple == hc.Value() && ex.Index == 0
-						}
-					}
+				isPrev := func(v ssa.Value) bool {
+					ex, ok := v.(*ssa.Extract)
+					return ok && ex.Tuple == ssa.Value(applyCall) && ex.Index == 0
+				}
+				// the loop-carried document
+				var phi *ssa.Phi
+				dr := uniq(roots(applyCall.Call.Args[1], 0))
+				if len(dr) == 1 {
+					phi, _ = dr[0].(*ssa.Phi)
+				}
+				if bad == "" && phi == nil {
+					bad = "Apply's document argument is " + describeValue(applyCall.Call.Args[1]) + ", not a loop-carried value: every patch is applied to the same document instead of the previous result"
 				}
 				if bad == "" {
-					if !isPhi {
-						bad = "Apply's document argument is " + describeValue(docArg) + ", not a loop-carried value: every patch is applied to the same document instead of the previous result"
-					} else {
-						hasSrc, hasPrev, other := false, false, false
-						for _, e := range phi.Edges {
-							isS, isP := false, false
-							for _, sv := range source {
-								if e == sv {
-									isS = true
-								}
-							}
-							for _, r := range res0 {
-								if e == ssa.Value(r) {
-									isP = true
-								}
-							}
-							hasSrc = hasSrc || isS
-							hasPrev = hasPrev || isP
-							if !isS && !isP {
+					hasSrc, hasPrev, other := false, false, false
+					for _, e := range phi.Edges {
+						for _, r := range uniq(roots(e, 0)) {
+							switch {
+							case isStdin(r):
+								hasSrc = true
+							case isPrev(r):
+								hasPrev = true
+							case r == ssa.Value(phi):
+							default:
 								other = true
 							}
 						}
-						if !hasSrc || !hasPrev || other {
-							bad = "the loop-carried document is not phi(stdin bytes, result of the previous Apply)"
-						}
+					}
+					if !hasSrc || !hasPrev || other {
+						bad = "the loop-carried document is not phi(stdin bytes, result of the previous Apply)"
 					}
 				}
 				if bad == "" {
@@ -437,15 +466,12 @@ func ruleCmd(c *Ctx) {
 								operand = ops[0]
 							}
 						case strings.HasPrefix(what, "os.(*File).Write") || what == "os.Stdout.Write":
-							// Write(b) / WriteString(string(b)): the bytes as they are
 							if len(call.Call.Args) >= 2 {
 								operand = call.Call.Args[1]
 							} else if len(call.Call.Args) == 1 {
 								operand = call.Call.Args[0]
 							}
 						case what == "fmt.Print" || what == "fmt.Fprint(os.Stdout, …)" || what == "io.WriteString(os.Stdout, …)":
-							// a single string operand is written as it is (a []byte operand would be
-							// printed as a list of numbers)
 							last := call.Call.Args[len(call.Call.Args)-1]
 							if what == "io.WriteString(os.Stdout, …)" {
 								operand = last
@@ -458,7 +484,8 @@ func ruleCmd(c *Ctx) {
 							bad = "the result is written with " + what + ", which does not write its operand byte for byte"
 							return
 						}
-						if operand == nil || !foldResultInMain(unwrapConv(operand)) {
+						or := uniq(roots(operand, 0))
+						if operand == nil || len(or) != 1 || or[0] != ssa.Value(phi) {
 							bad = "the printed operand is not the final value of the fold"
 							return
 						}
@@ -468,68 +495,89 @@ func ruleCmd(c *Ctx) {
 						bad = "the fold's final value is never printed"
 					}
 				}
-				// order: the patch applied in iteration k is the k-th element of a slice
-				// whose slot i was filled with the patch decoded from flag value i
+				// order: the patch applied in iteration k is the k-th element of a list whose
+				// k-th element is the patch decoded from flag value k
 				if bad == "" {
 					recv := applyCall.Call.Args[0]
 					okOrder := false
 					if ld, ok := recv.(*ssa.UnOp); ok {
 						if ia, ok := ld.X.(*ssa.IndexAddr); ok {
 							if h := loopHeaderOf(applyCall.Block()); h != nil && isRangeIndex(h, ia.Index, ia.X) {
-								// the slice ranged over: in main directly, or the helper's parameter fed from main's slice
-								sliceInDecodeFn := ia.X
-								if applyFn != mainFn {
-									if p, ok := ia.X.(*ssa.Parameter); ok {
-										for _, hc := range callsTo(mainFn, func(cc *ssa.CallCommon) bool { return cc.StaticCallee() == applyFn }) {
-											sliceInDecodeFn = hc.Common().Args[paramIdx(p)]
-										}
-									}
-								}
-								// filled by appending: patches = append(patches, decoded) once per iteration of the
-								// loop over the flag values keeps their order as well
-								if phi, ok := sliceInDecodeFn.(*ssa.Phi); ok && isLoopHeader(phi.Block()) {
-									for _, e := range phi.Edges {
-										ap, ok := e.(*ssa.Call)
-										if !ok || len(ap.Call.Args) != 2 {
-											continue
-										}
-										if bi, ok := ap.Call.Value.(*ssa.Builtin); !ok || bi.Name() != "append" || ap.Call.Args[0] != ssa.Value(phi) {
-											continue
-										}
-										ops, ok := varargsOperands(ap.Call.Args[1])
-										if !ok || len(ops) != 1 {
-											continue
-										}
-										ex, ok := ops[0].(*ssa.Extract)
-										if !ok || ex.Tuple != ssa.Value(decode) || ex.Index != 0 {
-											continue
-										}
-										dom := true
-										for _, src := range backEdgeSources(phi.Block()) {
-											if !ap.Block().Dominates(src) {
-												dom = false
+								lr := uniq(roots(ia.X, 0))
+								isList := func(v ssa.Value) bool {
+									for _, r := range uniq(roots(v, 0)) {
+										for _, l0 := range lr {
+											if r == l0 {
+												return true
 											}
 										}
-										if dom {
-											okOrder = true
-										}
 									}
+									return false
 								}
-								allInstrs(decodeFn, func(i ssa.Instruction) {
-									st, ok := i.(*ssa.Store)
-									if !ok {
-										return
+								isDecoded := func(v ssa.Value) bool {
+									rs := uniq(roots(v, 0))
+									if len(rs) == 0 {
+										return false
 									}
-									sa, ok := st.Addr.(*ssa.IndexAddr)
-									if !ok || sa.X != sliceInDecodeFn {
-										return
-									}
-									if ex, ok := st.Val.(*ssa.Extract); ok && ex.Tuple == ssa.Value(decode) && ex.Index == 0 {
-										if h2 := loopHeaderOf(st.Block()); h2 != nil && b.indexIsRangeOverSomeSlice(h2, sa.Index) {
-											okOrder = true
+									for _, r := range rs {
+										ex, ok := r.(*ssa.Extract)
+										if !ok || ex.Tuple != ssa.Value(decode) || ex.Index != 0 {
+											return false
 										}
 									}
-								})
+									return true
+								}
+								for _, fn := range fns {
+									allInstrs(fn, func(i ssa.Instruction) {
+										switch x := i.(type) {
+										case *ssa.Store:
+											// list[i] = decoded, i the index of a loop over a whole slice
+											sa, ok := x.Addr.(*ssa.IndexAddr)
+											if !ok || !isList(sa.X) || !isDecoded(x.Val) {
+												return
+											}
+											if h2 := loopHeaderOf(x.Block()); h2 != nil && b.indexIsRangeOverSomeSlice(h2, sa.Index) {
+												okOrder = true
+											}
+										case *ssa.Phi:
+											// list = append(list, decoded), once per iteration
+											if !isLoopHeader(x.Block()) {
+												return
+											}
+											inList := false
+											for _, l0 := range lr {
+												if l0 == ssa.Value(x) {
+													inList = true
+												}
+											}
+											if !inList {
+												return
+											}
+											for _, e := range x.Edges {
+												ap, ok := e.(*ssa.Call)
+												if !ok || len(ap.Call.Args) != 2 {
+													continue
+												}
+												if bi, ok := ap.Call.Value.(*ssa.Builtin); !ok || bi.Name() != "append" || ap.Call.Args[0] != ssa.Value(x) {
+													continue
+												}
+												ops, ok := varargsOperands(ap.Call.Args[1])
+												if !ok || len(ops) != 1 || !isDecoded(ops[0]) {
+													continue
+												}
+												dom := true
+												for _, src := range backEdgeSources(x.Block()) {
+													if !ap.Block().Dominates(src) {
+														dom = false
+													}
+												}
+												if dom {
+													okOrder = true
+												}
+											}
+										}
+									})
+								}
 							}
 						}
 					}
@@ -537,7 +585,8 @@ func ruleCmd(c *Ctx) {
 						bad = "the patch applied in iteration k is not the k-th decoded patch in flag order (patches[i] := DecodePatch(file i); for range patches)"
 					}
 				}
-				add(key, b.posOf(applyCall), bad == "", "doc := phi(ReadAll(os.Stdin)#0, Apply#0); printed with Printf(\"%s\", doc); patches[i] = DecodePatch(ReadFile(flag i)) applied in slice order", bad)
+				_ = applyFn
+				add(key, b.posOf(applyCall), bad == "", "doc := phi(ReadAll(os.Stdin)#0, Apply#0); printed byte for byte; patches[i] = DecodePatch(ReadFile(flag i)) applied in list order", bad)
 			}
 		}
 
@@ -562,6 +611,23 @@ func ruleCmd(c *Ctx) {
 					v = c2.Call.Args[0]
 				}
 				v = unwrapConv(v)
+				// a helper's parameter: the value its (single) caller hands in, at the call site
+				var site ssa.Instruction = call
+				for d := 0; d < 4; d++ {
+					p, isP := v.(*ssa.Parameter)
+					if !isP || p.Parent() == mainFn || !inCmd[p.Parent()] {
+						break
+					}
+					var sites []ssa.CallInstruction
+					for _, g := range fns {
+						sites = append(sites, callsTo(g, func(cc *ssa.CallCommon) bool { return cc.StaticCallee() == p.Parent() })...)
+					}
+					if len(sites) != 1 {
+						break
+					}
+					v = unwrapConv(sites[0].Common().Args[paramIdx(p)])
+					site = sites[0]
+				}
 				var ia *ssa.IndexAddr
 				switch x := v.(type) {
 				case *ssa.UnOp:
@@ -572,15 +638,17 @@ func ruleCmd(c *Ctx) {
 				if ia == nil {
 					bad = "the file name is " + describeValue(v) + ", not an element of the flag's value list"
 				} else {
-					h := loopHeaderOf(call.Block())
+					h := loopHeaderOf(site.Block())
 					if h == nil || !isRangeIndex(h, ia.Index, ia.X) {
 						bad = "the file name is not the element at the index of a range over the whole list"
 					}
 					fieldTag := ""
-					if ld, ok := ia.X.(*ssa.UnOp); ok {
-						if fa, ok := ld.X.(*ssa.FieldAddr); ok {
-							if st, ok := derefPtr(fa.X.Type()).Underlying().(*types.Struct); ok {
-								fieldTag = st.Tag(fa.Field)
+					for _, lr := range uniq(roots(ia.X, 0)) {
+						if ld, ok := lr.(*ssa.UnOp); ok {
+							if fa, ok := ld.X.(*ssa.FieldAddr); ok {
+								if st, ok := derefPtr(fa.X.Type()).Underlying().(*types.Struct); ok {
+									fieldTag = st.Tag(fa.Field)
+								}
 							}
 						}
 					}
